@@ -239,7 +239,12 @@ def run(shard, rec):
             r1 = mpc.add_bits(xa, xb)
             r2 = mpc.find(sx, 1)
             r3 = mpc.to_bits(sv)
-            r4 = mpc.from_bits(r3)
+            bits = list(r3)
+            r4 = mpc.from_bits(bits)
+            # the caller goes on using its own lists (as the library itself does with bit lists): results must be those of the arguments as passed
+            bits.reverse()
+            xa_, xb_, sx_ = list(xa), list(xb), list(sx)
+            xa.reverse(); xb[:] = xb[::-1]; sx[0:2] = sx[1::-1]
             r5 = mpc.unit_vector(r2 % 4 if False else mpc.min(r2, secint(3)), 4)
             r6 = mpc.gcp2(sv + 128, secint(12))
             return [await mpc.output(list(r1)), await mpc.output(r2), await mpc.output(list(r3)), await mpc.output(r4), await mpc.output(r5), await mpc.output(r6)]
